@@ -1,14 +1,22 @@
 #!/usr/bin/env python3
 """Prints the markdown table of seeded changes from /verif/seeded/*/meta.json."""
-import json, glob, os
+import json, glob, os, re
 rows = []
+n = caught_own = caught_any = 0
 for d in sorted(glob.glob('/verif/seeded/*/')):
     m = json.load(open(d + 'meta.json'))
     name = os.path.basename(d.rstrip('/'))
-    desc = open(d + 'description.md').read().strip().split('\n')
-    title = desc[0].lstrip('# ').strip()
-    caught = ', '.join(m['caught_by']) if m['caught_by'] else '**not caught**'
-    rows.append(f"| {name} | {m['breaks_property']} | {title[:150]} | {caught} | {m.get('note','')} |")
-print("| seeded change | property | what it changes | caught by (quick tier) | note |")
+    desc = [l for l in open(d + 'description.md').read().strip().split('\n') if l.strip()]
+    title = re.sub(r'^#*\s*(C\d\d\s*)?[Mm]utant\s*\d\s*[-—:–]*\s*', '', desc[0]).strip()
+    own = m['breaks_property']
+    cb = m['caught_by']
+    n += 1
+    caught_own += own in cb
+    caught_any += bool(cb)
+    caught = ', '.join(cb) if cb else '**not caught**'
+    ran = ', '.join(sorted(m.get('check_runs', {})))
+    rows.append(f"| {name} | {title[:140]} | {caught} | {ran} | {m.get('note','')} |")
+print(f"{n} seeded changes kept; {caught_own} caught by the check of the property they were written against, {caught_any} by some check.\n")
+print("| seeded change | what it changes | caught by (quick tier, seed 1) | checks run | note |")
 print("|---|---|---|---|---|")
 print('\n'.join(rows))
